@@ -136,9 +136,7 @@ def writes_through_alias(db, gname):
 
 def run(repo='/repo', tier='quick'):
     res = Result('C19')
-    configs = [()] if tier == 'quick' else [(), ('HTP_DEBUG',), ('FUZZING_BUILD_MODE_UNSAFE_FOR_PRODUCTION',)]
-    for defs in configs:
-        run_one(res, load(repo, defs), ('[' + ','.join(defs) + '] ') if defs else '')
+    run_one(res, load(repo), '')          # the other preprocessor configurations of the thorough tier are added by the runner (./check)
     res.assumptions += ['user callbacks do not mutate the shared configuration and keep their own state per connection',
                         "zlib's and the LZMA SDK's state is per stream object, as documented",
                         'indirect calls are resolved by slot: the set of functions ever stored into that record field (user hooks are leaves)']
